@@ -175,7 +175,8 @@ Definition w_part2 (c : wcfg) (s : wst) : wst :=
     let j1 := var_com O half (pjh s1) in
     let p1 := var_to_inertial O j1 (part s1) in
     if w_keep c
-    then {| part := p1; pjh := saved; is_sync := false; recalc := recalc s1; alloc := alloc s1 |}
+    then (* cache restored, then the half drift of the variational centres of mass redone on it *)
+         {| part := p1; pjh := var_com O half saved; is_sync := false; recalc := recalc s1; alloc := alloc s1 |}
     else {| part := p1; pjh := j1; is_sync := is_sync s1; recalc := recalc s1; alloc := alloc s1 |}
   else s.
 
@@ -419,3 +420,68 @@ Definition e_part2 (s : est) : est :=
   if safe then e_sync s else s.
 End EOS.
 Arguments ep {P} _. Arguments e_is_sync {P} _.
+
+(* ================================================================== exact_finish_time = 1 (reb_check_exit, src/rebound.c)
+   reb_simulation_integrate with exact_finish_time: full steps while the next one would not overshoot; then
+   status = LAST_STEP, reb_simulation_synchronize (with the OLD dt), r->dt = tmax - t, one shortened step, and at the
+   end of integrate reb_simulation_synchronize again (still with the shortened dt) before r->dt is restored.
+   [n] = number of full steps, [dt'] = the shortened step (both determined by the time bookkeeping of C08; here they
+   are inputs).  Only the interaction with synchronisation is modelled. *)
+Section ExactFinish.
+Context {T : Type} (N : Num T) {P J : Type}.
+Definition w_integrate_exact (O : @WOps T P J) (dt dt' : T) (n : nat) (c : wcfg) (s : @wst P J) : @wst P J :=
+  let s1 := w_sync N O dt c (iter n (w_step N O dt c) s) in
+  w_sync N O dt' c (w_step N O dt' c s1).
+Definition s_integrate_exact (O : @SOps T P J) (dt dt' : T) (n : nat) (c : @scfg T) (s : @sst P J) : @sst P J :=
+  let s1 := s_sync N O dt c (iter n (s_step N O dt c) s) in
+  s_sync N O dt' c (s_step N O dt' c s1).
+End ExactFinish.
+
+(* ================================================================== WHFast512 (src/integrator_whfast512.c), flag level
+   No safe_mode: every step leaves the state unsynchronized.  The AVX512 kernels are opaque operators. *)
+Section WHFast512.
+Context {T : Type} (N : Num T) {P J : Type}.
+Record XOps := {
+  x_kepler : T -> J -> J; x_com : T -> J -> J; x_jump : T -> J -> J;
+  x_interaction : T -> J -> J;          (* reb_whfast512_interaction_step_{8,4,2}planets: own gravity, on p_jh *)
+  x_to_dh : P -> J;                     (* inertial_to_democraticheliocentric_posvel *)
+  x_to_inertial : J -> P                (* democraticheliocentric_to_inertial_posvel *)
+}.
+Record xst := { xpart : P; xpjh : J; x_is_sync : bool }.
+Context (O : XOps) (dt : T) (keep gr : bool).
+Definition xhalf := ndiv N dt (nadd N (none N) (none N)).
+Definition xdrift (t : T) (j : J) : J := x_com O t (x_kepler O t j).
+
+(* reb_integrator_whfast512_part1 (the whole step; part2 does nothing) *)
+Definition x_step (s : xst) : xst :=
+  let j := if x_is_sync s then xdrift xhalf (x_to_dh O (xpart s)) else xdrift dt (xpjh s) in
+  let j := x_jump O (if gr then xhalf else dt) j in
+  let j := x_interaction O dt j in
+  let j := if gr then x_jump O xhalf j else j in
+  {| xpart := xpart s; xpjh := j; x_is_sync := false |}.
+
+(* reb_integrator_whfast512_synchronize *)
+Definition x_sync (s : xst) : xst :=
+  if x_is_sync s then s else
+  let j := xdrift xhalf (xpjh s) in
+  if keep then {| xpart := x_to_inertial O j; xpjh := xpjh s; x_is_sync := false |}
+  else {| xpart := x_to_inertial O j; xpjh := j; x_is_sync := true |}.
+
+Inductive xcall := XStep | XIntegrate (n : nat) | XSync | XNop.
+Definition x_api (s : xst) (k : xcall) : xst :=
+  match k with
+  | XStep => x_step s
+  | XIntegrate n => x_sync (iter n x_step s)
+  | XSync => x_sync s
+  | XNop => s
+  end.
+Definition x_run (s : xst) (w : list xcall) : xst := fold_left x_api w s.
+Fixpoint x_steps_only (w : list xcall) : list xcall :=
+  match w with
+  | [] => []
+  | XStep :: r => XStep :: x_steps_only r
+  | XIntegrate n :: r => repeat XStep n ++ x_steps_only r
+  | _ :: r => x_steps_only r
+  end.
+End WHFast512.
+Arguments xpart {P J} _. Arguments xpjh {P J} _. Arguments x_is_sync {P J} _.
